@@ -22,7 +22,7 @@ var FakeablePkgs = []string{
 }
 
 // FakePath maps a std import path to the fake's import path.
-func FakePath(std string) string { return "verif.fake/" + std }
+func FakePath(std string) string { return "veriffake/" + std }
 
 // FakeLocalName is the package name of the fake (same as the real one).
 func FakeLocalName(std string) string {
@@ -40,7 +40,7 @@ var (
 )
 
 // IsFakePath reports whether an import path denotes a generated namesake package.
-func IsFakePath(p string) bool { return strings.HasPrefix(p, "verif.fake/") }
+func IsFakePath(p string) bool { return strings.HasPrefix(p, "veriffake/") }
 
 // HasFake reports whether a namesake package exists for the std path.
 func HasFake(std string) bool {
